@@ -10,8 +10,10 @@ is run for the seed's own property plus the extra properties listed in its meta.
 """
 import json, os, subprocess, sys, time
 ROOT = os.path.dirname(os.path.dirname(os.path.abspath(__file__)))
-wt = sys.argv[1]
-ids = sys.argv[2:] or sorted(os.listdir(os.path.join(ROOT, "seeded")))
+args = [a for a in sys.argv[1:] if a != "--lazy"]
+LAZY = "--lazy" in sys.argv     # stop at the first check that raises the alarm (own property first)
+wt = args[0]
+ids = args[1:] or sorted(os.listdir(os.path.join(ROOT, "seeded")))
 env = dict(os.environ, CARGO_NET_OFFLINE="true", VERIF_REPO=wt)
 for sid in ids:
     d = os.path.join(ROOT, "seeded", sid)
@@ -29,6 +31,8 @@ for sid in ids:
         c = subprocess.run([os.path.join(ROOT, "check"), p], cwd=ROOT, env=env, capture_output=True, text=True)
         lines = [l for l in (c.stdout + c.stderr).split("\n") if l.startswith(("VIOLATION", "UNDECIDED", "OK "))]
         res[p] = {"exit": c.returncode, "first_line": (lines[0][:300] if lines else ""), "wall_s": round(time.time() - t0, 1)}
+        if LAZY and c.returncode == 1 and meta.get("kind") != "benign":
+            break
     subprocess.run(["git", "checkout", "-q", "--", "."], cwd=wt)
     meta["last_evaluation"] = {"repo_head": subprocess.run(["git", "rev-parse", "--short", "HEAD"], cwd=wt, capture_output=True, text=True).stdout.strip(),
                                "verif_head": subprocess.run(["git", "rev-parse", "--short", "HEAD"], cwd=ROOT, capture_output=True, text=True).stdout.strip(),
